@@ -612,17 +612,24 @@ func (n *BlockNode) Render(w io.Writer, ctx *RenderContext) error {
 		}
 	}
 
-	// Now get the content to render
-	if blockContent, ok := ctx.blocks[n.name]; ok && len(blockContent) > 0 {
-		content = blockContent
-	} else {
-		// Otherwise, use the default content from this block node
-		content = n.body
-	}
+	// All definitions of this block: the overrides collected along the extends chain
+	// (most-derived first), then the body written where the block stands
+	overrides := ctx.blockChain[n.name]
+	chain := make([][]Node, 0, len(overrides)+1)
+	chain = append(chain, overrides...)
+	chain = append(chain, n.body)
+
+	// The most-derived definition is rendered, even if it is empty
+	content = chain[0]
 
 	// Save the current block for parent() function support
 	previousBlock := ctx.currentBlock
+	previousChain, previousDepth := ctx.currentChain, ctx.blockDepth
 	ctx.currentBlock = n
+	ctx.currentChain, ctx.blockDepth = chain, 0
+	defer func() {
+		ctx.currentChain, ctx.blockDepth = previousChain, previousDepth
+	}()
 
 	// Create an isolated context for rendering this block
 	// This prevents parent() from accessing the wrong block context
@@ -747,6 +754,7 @@ func (n *ExtendsNode) Render(w io.Writer, ctx *RenderContext) error {
 	for name, nodes := range ctx.blocks {
 		parentCtx.blocks[name] = nodes
 	}
+	parentCtx.blockChain = copyBlockChain(ctx.blockChain)
 
 	// Render the parent template with the updated context
 	return parentTemplate.nodes.Render(w, parentCtx)
@@ -1488,15 +1496,29 @@ func (n *RootNode) Render(w io.Writer, ctx *RenderContext) error {
 	// First register all blocks in this template before processing extends
 	// Needed to ensure all blocks are available for parent() calls
 	for _, child := range n.children {
+		if ext, ok := child.(*ExtendsNode); ok {
+			// If this is an extends node, record it for later
+			extendsNode = ext
+		}
+	}
+
+	for _, child := range n.children {
 		if block, ok := child.(*BlockNode); ok {
 			// Only register blocks that haven't been defined by a child template
-			if !hasChildBlocks || ctx.blocks[block.name] == nil {
+			// (an empty body is a definition too)
+			if _, defined := ctx.blocks[block.name]; !hasChildBlocks || !defined {
 				// Register the block
 				ctx.blocks[block.name] = block.body
 			}
-		} else if ext, ok := child.(*ExtendsNode); ok {
-			// If this is an extends node, record it for later
-			extendsNode = ext
+
+			// The blocks of a template that extends another one are overrides; they are
+			// collected child first, so the most-derived definition comes first
+			if extendsNode != nil {
+				if ctx.blockChain == nil {
+					ctx.blockChain = make(map[string][][]Node)
+				}
+				ctx.blockChain[block.name] = append(ctx.blockChain[block.name], block.body)
+			}
 		}
 	}
 
